@@ -57,6 +57,18 @@ CHECKS = {
             'one member per cluster and none from clusters without a lower-hull point; corner variant: survivor maximises the triangle score.',
             'linkages (C11) and graham_scan_lower (C18) are taken as the reference for clusters and hull',
             'DESIGN.md section 4 C12'),
+    'C03': ('runtime postcondition monitor result == corner on generated exact two-slope elbows, all detector configurations + loop monitor',
+            'Every generated elbow (exactly representable coordinates, every orientation class) is run through curvature, DFDT, Menger, '
+            'L-method get_knee (2 fits x 2 costs) and knee (2 fits x 3 refinements x 2 limits) and Kneedle(t=0) on monotone elbows; the '
+            'thorough tier visits every ordered slope pair once and arms of up to 2000 segments.',
+            'the elbow family is the one stated in the property (arms >= 3 segments, gaps 1..4, slopes j/8, dyadic offsets)',
+            'DESIGN.md section 4 C03'),
+    'C18': ('runtime postcondition monitors on the three hull routines against exact rational/integer brute-force hulls + loop monitor',
+            'Chains: shape, on-or-above/below and strict-turn clauses with exact rational orientation tests, equality with the brute-force '
+            'chain on integer/dyadic curves; graham_scan on distinct integer point sets (general position and degenerate): completes, no '
+            'repeats, all extreme vertices, only boundary points, exact clockwise cycle in general position.',
+            'float curves accept either decision within the orientation noise floor; graham_scan exercised on integer points only',
+            'DESIGN.md section 4 C18'),
 }
 
 BUILDING = {}   # id -> reason (properties not claimed yet)
